@@ -679,7 +679,10 @@ def r_tab_de(ctx, rep):
             for nm, lid in pat_bindings(p):
                 if nm == "self":
                     self_lid = lid
-        for m in walk_k(fn.body, "Match"):
+        from .kit import matches_as_match
+        syn = matches_as_match(fn.body)          # `if matches!(self.data_type, Data::Empty) { .. } else { .. }`
+        hidden = {id(inner) for _, inner in syn}
+        for m in [x for x in walk_k(fn.body, "Match") if id(x) not in hidden] + [x for x, _ in syn]:
             fc = field_chain(m["scrut"])
             if not fc or fc[0] != "self" or fc[1][:1] != ["data_type"]:
                 continue
